@@ -158,7 +158,12 @@ var verifC14InflateCache sync.Map
 
 func verifC14Inflate(wire []byte) ([]byte, error) {
 	h := fnv.New64a()
-	h.Write(wire)
+	if len(wire) <= 256 {
+		h.Write(wire)
+	} else { // large payloads here all come from DeflateExact over one fill pattern: length + both ends identify them
+		h.Write(wire[:128])
+		h.Write(wire[len(wire)-128:])
+	}
 	key := [2]uint64{uint64(len(wire)), h.Sum64()}
 	if v, ok := verifC14InflateCache.Load(key); ok {
 		return v.([]byte), nil
@@ -170,9 +175,33 @@ func verifC14Inflate(wire []byte) ([]byte, error) {
 	return out, err
 }
 
+// verifC14Acc collects counters locally (one per worker job) so that the monitor's mutex is not the bottleneck.
+type verifC14Acc struct {
+	m       *mon.M
+	cases   int
+	counts  map[string]int64
+	classes map[string]bool
+}
+
+func verifC14NewAcc(m *mon.M) *verifC14Acc {
+	return &verifC14Acc{m: m, counts: map[string]int64{}, classes: map[string]bool{}}
+}
+func (a *verifC14Acc) Count(k string, n int64) { a.counts[k] += n }
+func (a *verifC14Acc) Flush() {
+	a.m.Cases(a.cases)
+	for k, v := range a.counts {
+		a.m.Count(k, v)
+	}
+	for k := range a.classes {
+		a.m.Class(k)
+	}
+	a.cases, a.counts, a.classes = 0, map[string]int64{}, map[string]bool{}
+}
+
 // verifC14Eval runs one (trace, cut, configuration) and compares with the model.
-func verifC14Eval(m *mon.M, cfg verifC14Cfg, frames []refws.Frame, wire []byte, cut int, origin string) {
-	m.Case()
+func verifC14Eval(acc *verifC14Acc, cfg verifC14Cfg, frames []refws.Frame, wire []byte, cut int, origin string) {
+	m := acc.m
+	acc.cases++
 	exp := refws.Receive(refws.RecvConfig{Role: cfg.role, Limit: cfg.limit, Compression: cfg.comp, InflateFn: verifC14Inflate}, frames, cut)
 	in := wire
 	if cut >= 0 && cut < len(wire) {
@@ -197,8 +226,8 @@ func verifC14Eval(m *mon.M, cfg verifC14Cfg, frames []refws.Frame, wire []byte, 
 		return
 	}
 	top := verifC14TopClass(frames)
-	m.Classf("%s/c%v/%s@%d/%s/lim%v/cut%v/top-%s", cfg.role, cfg.comp, exp.Term, exp.TermFrame, exp.Reason, cfg.limit > 0, cut >= 0, top)
-	m.Count("term_"+exp.Term.String(), 1)
+	acc.classes[fmt.Sprintf("%s/c%v/%s@%d/%s/lim%v/cut%v/top-%s", cfg.role, cfg.comp, exp.Term, exp.TermFrame, exp.Reason, cfg.limit > 0, cut >= 0, top)] = true
+	acc.Count("term_"+exp.Term.String(), 1)
 	if o.neverFail {
 		m.Violationf("c14:reader-never-fails", rep(), "more messages returned than frames in the stream")
 		return
@@ -208,7 +237,7 @@ func verifC14Eval(m *mon.M, cfg verifC14Cfg, frames []refws.Frame, wire []byte, 
 		m.Violationf("c14:reply-unparseable:"+e.Code, rep(), "what the endpoint wrote back is not a sequence of valid frames: %v (out %x)", e, o.out)
 		return
 	}
-	m.Count("reply_frames_parsed", int64(len(p.Frames())))
+	acc.Count("reply_frames_parsed", int64(len(p.Frames())))
 	for _, e := range p.Events() {
 		if e.Kind == refws.EvMessage || e.Opcode == refws.OpPing {
 			m.Violationf("c14:unexpected-output", rep(), "the reader wrote a data message or ping")
@@ -217,9 +246,9 @@ func verifC14Eval(m *mon.M, cfg verifC14Cfg, frames []refws.Frame, wire []byte, 
 	}
 	pongs := p.Controls(refws.OpPong)
 	kind, code := verifC14ObsKind(o, p)
-	m.Count("lib_"+kind.String(), 1)
-	m.Count("pongs_seen", int64(len(pongs)))
-	m.Count("messages_delivered", int64(len(o.msgs)))
+	acc.Count("lib_"+kind.String(), 1)
+	acc.Count("pongs_seen", int64(len(pongs)))
+	acc.Count("messages_delivered", int64(len(o.msgs)))
 
 	// messages: the common prefix is always asserted
 	n := len(exp.Messages)
@@ -244,7 +273,7 @@ func verifC14Eval(m *mon.M, cfg verifC14Cfg, frames []refws.Frame, wire []byte, 
 	}
 	if exp.Term == refws.TermUnasserted {
 		// observation only: what does the library do where the statement is silent?
-		m.Count(fmt.Sprintf("obs:%s:lib-%s", exp.Reason, kind), 1)
+		acc.Count(fmt.Sprintf("obs:%s:lib-%s", exp.Reason, kind), 1)
 		if len(o.msgs) < len(exp.Messages) || len(pongs) < len(exp.Pongs) {
 			m.Violationf("c14:message-not-delivered:before-unasserted", rep(), "only %d/%d messages, %d/%d pongs before the unasserted point", len(o.msgs), len(exp.Messages), len(pongs), len(exp.Pongs))
 		}
@@ -314,7 +343,7 @@ func verifC14Eval(m *mon.M, cfg verifC14Cfg, frames []refws.Frame, wire []byte, 
 		m.Violationf("c14:close-code-differs", rep(), "close frame carried %d, CloseError says %d", exp.CloseCode, code)
 	}
 	if exp.MustSendClose1002() {
-		m.Count("close1002_seen", 1)
+		acc.Count("close1002_seen", 1)
 	}
 }
 
@@ -531,14 +560,17 @@ func TestVerif_C14_Enum(t *testing.T) {
 	m := mon.New("C14", "enum")
 	defer m.Finish(t)
 	depth := m.N(3, 4)
+	bigDepth := m.N(2, 4) // quick: 65535/65536 payloads only in traces of <= 2 frames
+	sample := m.N(4, 6)
 	m.Rule(fmt.Sprintf("bounded-exhaustive, prefix-closed: every trace of <= %d frames over opcode{0,1,2,8,9,10,3,11} x FIN x RSV{0,1,2,3} x mask{right,wrong} x "+
 		"length{0,5,125,126,65535,65536,2^63,2^64-256} (+15 close payload variants) whose proper prefixes are violation-free (decided by refws.Receiver), at most one "+
-		"65535/65536 payload per trace, followed by a sentinel ping + message; x {client,server} x {compression off, negotiated} x read limits {0, exact, exact-1, first-frame-1, 1} "+
-		"(non-zero limits on every trace of depth <= 2 and on the depth-%d traces that contain a data frame, sampled 1/%d by trace index unless a top-bit length is present); "+
-		"distinct = role x compression x model terminal kind@frame x rule x limit? x top-bit class", depth, depth, m.N(3, 6)))
+		"65535/65536 payload per trace and only in traces of <= %d frames, each followed by a sentinel ping + message; x {client,server} x {compression off, negotiated} x read "+
+		"limits {0, exact, exact-1, first-frame-1, 1} (non-zero limits: every trace of < %d frames; of the %d-frame traces those with a top-bit length, and 1/%d (by trace index) "+
+		"of those with a data frame); distinct = role x compression x model terminal kind@frame x rule x limit? x top-bit class",
+		depth, bigDepth, depth, depth, sample))
 	m.Exhaustive(true)
 	syms := verifC14Alphabet()
-	// continuing symbols per (compression, state): decided by the model
+	// continuing symbols per (compression, message open?): decided by the model
 	type stKey struct {
 		comp bool
 		open bool
@@ -570,7 +602,6 @@ func TestVerif_C14_Enum(t *testing.T) {
 		role   refws.Role
 		comp   bool
 		prefix []int
-		open   bool
 		bigs   int
 	}
 	var jobs []job
@@ -578,7 +609,7 @@ func TestVerif_C14_Enum(t *testing.T) {
 		for _, comp := range []bool{false, true} {
 			var rec func(prefix []int, open bool, bigs int)
 			rec = func(prefix []int, open bool, bigs int) {
-				jobs = append(jobs, job{role, comp, append([]int{}, prefix...), open, bigs})
+				jobs = append(jobs, job{role, comp, append([]int{}, prefix...), bigs})
 				if len(prefix) == depth-1 {
 					return
 				}
@@ -586,10 +617,11 @@ func TestVerif_C14_Enum(t *testing.T) {
 					s := syms[si]
 					b := bigs
 					if s.big() {
+						// the trace will have at least len(prefix)+2 frames
+						if b > 0 || len(prefix)+2 > bigDepth {
+							continue
+						}
 						b++
-					}
-					if b > 1 {
-						continue
 					}
 					o := open
 					if s.op <= 2 {
@@ -602,7 +634,6 @@ func TestVerif_C14_Enum(t *testing.T) {
 		}
 	}
 	m.Note("prefix_jobs", len(jobs))
-	sample := m.N(3, 6)
 	m.Require("term_protocol-error", 1000)
 	m.Require("term_close-received", 100)
 	m.Require("term_limit", 100)
@@ -613,20 +644,23 @@ func TestVerif_C14_Enum(t *testing.T) {
 	m.Require("messages_delivered", 1000)
 	mon.Parallel(len(jobs), func(w, ji int) {
 		j := jobs[ji]
+		acc := verifC14NewAcc(m)
+		defer acc.Flush()
 		seq := make([]int, len(j.prefix)+1)
 		copy(seq, j.prefix)
 		for si := range syms {
 			s := syms[si]
-			if j.bigs > 0 && s.big() {
+			if s.big() && (j.bigs > 0 || len(seq) > bigDepth) {
 				continue
 			}
 			seq[len(seq)-1] = si
 			frames := verifC14Trace(syms, seq, j.role, j.comp, true)
 			wire, _ := refws.Gen(frames)
 			tid := ji*len(syms) + si
-			cfg := verifC14Cfg{role: j.role, comp: j.comp, readBuf: []int{256, 125, 256, 4096}[tid%4]}
+			cfg := verifC14Cfg{role: j.role, comp: j.comp, readBuf: []int{256, 125, 256, 1024}[tid%4]}
 			origin := fmt.Sprintf("enum:%v", seq)
-			verifC14Eval(m, cfg, frames, wire, -1, origin)
+			verifC14Eval(acc, cfg, frames, wire, -1, origin)
+			acc.Count("traces", 1)
 			hasData, hasTop := false, false
 			for i := 0; i < len(seq); i++ {
 				if frames[i].Opcode <= 2 {
@@ -641,11 +675,12 @@ func TestVerif_C14_Enum(t *testing.T) {
 			}
 			for _, l := range verifC14Limits(frames) {
 				cfg.limit = l
-				verifC14Eval(m, cfg, frames, wire, -1, origin)
+				verifC14Eval(acc, cfg, frames, wire, -1, origin)
 			}
 		}
 	})
 }
+
 
 // random long traces, mostly valid, ending wherever the first violation falls
 func verifC14RandTrace(r *vrand.Rand, role refws.Role, comp bool, maxFrames int) []refws.Frame {
@@ -654,13 +689,21 @@ func verifC14RandTrace(r *vrand.Rand, role refws.Role, comp bool, maxFrames int)
 	masked := role == refws.RoleServer
 	open := false
 	violP := r.Pick(0, 0, 40, 15)
+	bigLeft := 0
+	if r.Chance(1, 8) {
+		bigLeft = 1 // at most one 64 KiB payload, in one trace out of eight
+	}
 	pickLen := func(ctrl bool) int {
 		if ctrl {
 			return r.Pick(0, 1, 2, 5, 124, 125, r.Intn(126))
 		}
 		switch r.Intn(12) {
 		case 0:
-			return r.Pick(65535, 65536, 65537)
+			if bigLeft > 0 && r.Chance(1, 3) {
+				bigLeft--
+				return r.Pick(65535, 65536, 65537)
+			}
+			return r.Range(0, 140)
 		case 1:
 			return r.Pick(125, 126, 127, 128)
 		case 2:
@@ -771,6 +814,20 @@ func TestVerif_C14_Random(t *testing.T) {
 	m.Require("term_close-received", 200)
 	m.Require("pongs_seen", 2000)
 	m.Require("messages_delivered", 5000)
+	accs := make([]*verifC14Acc, 256)
+	accFor := func(w int) *verifC14Acc {
+		if accs[w] == nil {
+			accs[w] = verifC14NewAcc(m)
+		}
+		return accs[w]
+	}
+	defer func() {
+		for _, a := range accs {
+			if a != nil {
+				a.Flush()
+			}
+		}
+	}()
 	mon.Parallel(n, func(w, i int) {
 		r := m.Rand("trace", i)
 		role := refws.Role(r.Intn(2))
@@ -781,7 +838,7 @@ func TestVerif_C14_Random(t *testing.T) {
 		lims := append([]int64{0, 0}, verifC14Limits(frames)...)
 		lims = append(lims, int64(r.Range(1, 300)))
 		cfg.limit = lims[r.Intn(len(lims))]
-		verifC14Eval(m, cfg, frames, wire, -1, fmt.Sprintf("random:%d", i))
+		verifC14Eval(accFor(w), cfg, frames, wire, -1, fmt.Sprintf("random:%d", i))
 	})
 	mon.Parallel(ncut, func(w, i int) {
 		r := m.Rand("cut", i)
@@ -803,8 +860,8 @@ func TestVerif_C14_Random(t *testing.T) {
 		lims := append([]int64{0, 0, 0}, verifC14Limits(frames)...)
 		cfg.limit = lims[r.Intn(len(lims))]
 		for cut := 0; cut <= len(wire); cut++ {
-			verifC14Eval(m, cfg, frames, wire, cut, fmt.Sprintf("cut:%d", i))
-			m.Count("cut_offsets", 1)
+			verifC14Eval(accFor(w), cfg, frames, wire, cut, fmt.Sprintf("cut:%d", i))
+			accFor(w).Count("cut_offsets", 1)
 		}
 	})
 }
